@@ -3,7 +3,7 @@
    Everything is over exact rationals Q; `==` is equality of rationals (Qred in the model only changes the
    representation).  Draws of the random generator are inputs (u, alt): the theorems hold for ALL draws. *)
 From Coq Require Import List ZArith QArith Qabs Bool Arith.
-From BlackIt Require Import Model.Bandit Proofs.BanditP.
+From BlackIt Require Import Model.Bandit Proofs.BanditP Proofs.BanditBoundsP.
 Import ListNotations.
 Open Scope Q_scope.
 
@@ -373,4 +373,44 @@ Example C19_nonvacuous_check_xcase :
   check_xcase (2%nat, -1 # 1, 0, 1 # 2, [XSetQ [0; 3 # 1]; XOp (OPolicy (1 # 3) None false 0)]) = false /\
   check_xcase (2%nat, -1 # 1, 0, 1 # 2,
                [XOp (OSetRef (Some (2 # 1))); XStep true None None 0 true None]) = false.
+Proof. vm_compute. auto. Qed.
+
+(* ================================================================== round 5 *)
+(* ---------------------------------------------------------------- estimates are convex combinations *)
+(* alpha_ok: the sample-average sentinel or a constant rate in [0,1].  The step of every learn() is then in [0,1] *)
+Theorem C19_step_in_unit_interval : forall alpha c, alpha_ok alpha -> 0 <= step_of alpha c /\ step_of alpha c <= 1.
+Proof. exact step_of_unit. Qed.
+Print Assumptions C19_step_in_unit_interval.
+
+(* ... so after ANY sequence of learn calls (each with the rate then in force, actions interleaved anyhow, valid or
+   not) every estimate lies in any interval [lo,hi] that contained the estimates before and the rewards received *)
+Theorem C19_estimates_stay_in_hull : forall lo hi tr s,
+  Forall (fun x => alpha_ok (fst x) /\ within lo hi (snd (snd x))) tr ->
+  Forall (within lo hi) (qs s) -> Forall (within lo hi) (qs (run_learn_v s tr)).
+Proof. exact run_learn_v_within. Qed.
+Print Assumptions C19_estimates_stay_in_hull.
+
+Theorem C19_estimates_stay_in_hull_from_init : forall lo hi alpha n v tr, alpha_ok alpha -> within lo hi v ->
+  Forall (fun ar => within lo hi (snd ar)) tr ->
+  Forall (within lo hi) (qs (run_learn alpha (init_agent n v) tr)).
+Proof. exact estimates_within_from_init. Qed.
+Print Assumptions C19_estimates_stay_in_hull_from_init.
+
+(* the environment's rewards for non-negative losses are in [0,1] (those that do not raise): with lo = 0, hi = 1 the
+   hypothesis of the hull theorem is met by the real reward stream *)
+Theorem C19_env_rewards_in_unit_interval : forall ls c0, 0 <= c0 -> Forall (fun x => 0 <= x) ls ->
+  Forall (fun o => match o with Ok r => within 0 1 r | Raise _ => True end) (fst (env_run (Some c0) ls)).
+Proof. exact env_rewards_in_unit. Qed.
+Print Assumptions C19_env_rewards_in_unit_interval.
+
+(* the hypothesis alpha_ok is needed: alpha = 3/2 overshoots the reward *)
+Theorem C19_overshoot_outside_unit_alpha : 1 < nth 0 (qs (run_learn (3 # 2) (init_agent 1 0) [(0%nat, 1 # 1)])) 0.
+Proof. exact overshoot_witness. Qed.
+Print Assumptions C19_overshoot_outside_unit_alpha.
+
+(* non-vacuity: the example trace has rewards in [-1/2, 9]; the initial value 5 is inside; so are all estimates *)
+Example C19_nonvacuous_hull :
+  let s := run_learn (-1 # 1) (init_agent 3 (5 # 1)) ex_trace in
+  forallb (fun q => Qle_bool (-1 # 2) q && Qle_bool q (9 # 1)) (qs s) = true /\
+  forallb (fun ar => Qle_bool (-1 # 2) (snd ar) && Qle_bool (snd ar) (9 # 1)) ex_trace = true.
 Proof. vm_compute. auto. Qed.
